@@ -310,6 +310,7 @@ func Link(
 	}
 
 	c.scanImportsAndExports()
+	verifObserveExports(&c)
 
 	// Stop now if there were errors
 	if c.log.HasErrors() {
